@@ -227,6 +227,9 @@ def nodeTextOK (x : ExpNode) (y : TextNode) : Bool :=
      if e.len == NIL then x.d.comments ++ e.comments == y.ncomments && y.ecomments.isEmpty
      else x.d.comments == y.ncomments && e.comments == y.ecomments)
 
+/-- some node name contains a Newick metacharacter (the writer does not quote: open finding F85) -/
+def hasMetaName (t : T) : Bool := t.nodeNames.any fun n => n.toList.any isMeta
+
 /-- Problems of the text (empty = the text, re-read, is the tree `t` with its shape,
     child order, names or supports, comments and lengths). -/
 def textProblems (t : T) (text : String) : List String :=
